@@ -290,7 +290,7 @@ class FnTranslator:
                 return "(ECon %s %s)" % (cs("." + name), clist([self.expr(e[1])] + [self.expr(a) for a in e[3:]]))
             if self.interior and name in getattr(self, "accessor_methods", ()) and len(e) == 3:
                 return "(EField %s %s)" % (self.expr(e[1]), cs(name))
-            if self.interior and name == "map" and len(e) == 4 and e[3][0] == "closure" and e[1][0] == "mcall" and \
+            if self.interior and name == "map" and len(e) == 4 and e[3][0] in ("closure", "path") and e[1][0] == "mcall" and \
                     S(e[1][2]) in ("into_iter", "iter") and len(e[1]) == 3:
                 return self.array_map(e[1][1], e[3])
             if self.interior and name == "find" and len(e) == 4 and e[3][0] == "closure" and e[1][0] == "mcall" and \
@@ -535,7 +535,18 @@ class FnTranslator:
 
     def array_map(self, src, clo):
         """`xs.into_iter().map(|v| BODY)`: the list of BODY for the elements in order (the closure is pure)"""
-        v, body = self.closure1(clo)
+        if clo[0] == "path":
+            # a named function applied to each element
+            segs = self.path_segs(clo)
+            v = "map_elem"
+            if segs[-1] in getattr(self, "symbolic_methods", ()):
+                body = "ECon %s [EVar \"map_elem\"]" % cs("." + segs[-1])
+            else:
+                fname = self.own_methods.get(segs[-1], "::".join(segs))
+                self.calls.add(fname)
+                body = "ECall %s [EVar \"map_elem\"]" % cs(fname)
+        else:
+            v, body = self.closure1(clo)
         self.hof_no = getattr(self, "hof_no", 0) + 1
         n = self.hof_no
         return ("(EBlock [SLet (PVar \"map_src%d\") %s; SLet (PVar \"map_acc%d\") (EArr []); "
@@ -881,6 +892,15 @@ def translate_dispatch_leg():
     out = translate_methods("types/msg_variant.rs", {"MsgVariant": ["emit_dispatch_leg"]}, setup=setup, kv=kv, extra_known=known)
     kv2 = fetch_ast(os.path.join(common.REPO, "sylvia-derive", "src", "types", "msg_type.rs"))
     out += translate_methods("types/msg_type.rs", {"MsgType": ["emit_dispatch_leg"]}, setup=setup, kv=kv2, extra_known=known)
+
+    # the collection of variants: one arm, one published name, one constructor, one enum variant per variant
+    def setup_vs(t):
+        t.interior = True
+        t.symbolic_methods = {"emit_variants_constructors", "emit"}
+        t.own_methods = {"emit_dispatch_leg": "MsgVariant::emit_dispatch_leg"}
+    FOREIGN.update({"serde_snake_case": "serde_snake_case"})
+    out += translate_methods("types/msg_variant.rs", {"MsgVariants": ["emit_dispatch_legs", "as_names_snake_cased", "emit_constructors", "emit"]},
+                             setup=setup_vs, kv=kv, extra_known=known | {"MsgVariant::emit_dispatch_leg"})
     return out
 
 
